@@ -154,8 +154,7 @@ void verif_case(Ctx &c) {
 					switch(op % 8) {
 					case 0: case 1: case 2: case 3: read_side(a, op >> 3); break;
 					case 4: case 5: qs(a); break;
-					case 6: { bool only; { dsched::Ignore ig; unsigned on2 = 0; for(bool x : w.online) if(x) on2++; only = false; (void)on2; }
-						if(!only) { qs(a); } break; }
+					case 6: register_barrier(a, nullptr); break;      // readers register barriers of their own too (overlapping registrations)
 					default: { mark_quiescent(a);      // going offline counts as quiescent
 						{ dsched::Ignore ig; w.in_qs[a] = 1; }       // inside offline(): quiescent from here on
 						try { ag[a]->offline(); { dsched::Ignore ig; w.online[a] = false; w.in_qs[a] = 0; } mark_quiescent(a); }
@@ -204,6 +203,7 @@ void verif_enum(Enum &e) {
 		{{0, 0, 0, 0, 0}, "updater: replace+barrier | reader: read"},
 		{{0, 1, 0, 5, 1, 0, 4}, "updater: replace+barrier, run | reader: read, quiescent_state"},
 		{{0, 1, 0, 3, 1, 8, 4}, "updater: replace+barrier, quiescent_state | reader: read, quiescent_state"},
+		{{0, 1, 3, 0, 1, 4, 6}, "updater: quiescent_state, replace+barrier | reader: quiescent_state, barrier (overlapping registrations)"},
 	};
 	for(auto &sh : shapes) {
 		std::vector<uint32_t> choices; bool more = true; uint64_t n = 0;
